@@ -48,7 +48,7 @@ NamedRel(name) == "Named_" \o name
 NamedRels == {NamedRel(n) : n \in NamedTargets}
 NameOfRel(rel) == CHOOSE n \in NamedTargets : NamedRel(n) = rel
 RelNames == {"FFNSPartition", "ZMTotalIsLight", "FONLLParts", "PositivitySum", "IsospinRotation",
-             "NCReducesToEM", "PositronFlip", "ChargeConjugation", "LeptonAsNeutrino", "EqualCharge"} \cup NamedRels
+             "NCReducesToEM", "PositronFlip", "ChargeConjugation", "LeptonAsNeutrino", "EqualCharge", "TaggedSpectators"} \cup NamedRels
 
 Term(coef, sets, rowmap) == [coef |-> coef, sets |-> sets, rowmap |-> rowmap]
 Id == "id"
@@ -78,6 +78,7 @@ RelApplies(rel, pt) ==
     [] rel = "LeptonAsNeutrino"  -> c.ew.proc = "CC" /\ Supported(c)
     [] rel = "EqualCharge"     -> c.ew.proc # "CC" /\ c.ew.pos = 0 /\ MasslessCell(c) /\ Supported(c)
                                   /\ (c.nf >= 5 \/ (c.nf >= 4 /\ c.Z = c.A))
+    [] rel = "TaggedSpectators" -> c.ew.proc # "CC" /\ c.ew.pos = 0 /\ TaggedMassless(c) /\ Supported(c)
 \* the theorem itself, on the specification
 RelHolds(rel, pt) ==
   LET c == CellOfPt(pt) IN
@@ -92,6 +93,7 @@ RelHolds(rel, pt) ==
     [] rel = "ChargeConjugation" -> C13_ChargeConjugation(c)
     [] rel = "LeptonAsNeutrino"  -> C13_ChargeConjugation(c)
     [] rel = "EqualCharge"     -> C13_EqualChargeExchange(c)
+    [] rel = "TaggedSpectators" -> C13_TaggedSpectators(c)
 \* the relation as data on operator tensors:  sum_i coef_i RowMap_i Op(pt with sets_i) = 0
 RelTerms(rel, pt) ==
   LET c == CellOfPt(pt) IN
@@ -123,4 +125,10 @@ RelTerms(rel, pt) ==
          LET sb == c.nf >= 5  pr == c.nf >= 4 /\ c.Z = c.A IN
          << Term(One, <<>>, (IF sb THEN PickRow(3, 3) ELSE <<>>) \o (IF pr THEN PickRow(1, 1) \o PickRow(2, 2) ELSE <<>>)),
             Term(RI(-1), <<>>, (IF sb THEN PickRow(3, 5) ELSE <<>>) \o (IF pr THEN PickRow(1, 3) \o PickRow(2, 4) ELSE <<>>)) >>
+    [] rel = "TaggedSpectators" ->
+         \* every spectator row equals the row of the NEXT spectator (cyclically): rows of 1..nf without the tagged quark
+         LET sp == SelectSeq(SetToSeqQ(1, c.nf), LAMBDA q : q # c.hq)
+             nx(i) == sp[(i % Len(sp)) + 1]
+             cat(f(_)) == LET RECURSIVE go(_) go(i) == IF i > Len(sp) THEN <<>> ELSE f(i) \o go(i + 1) IN go(1)
+         IN << Term(One, <<>>, cat(LAMBDA i : PickRow(sp[i], sp[i]))), Term(RI(-1), <<>>, cat(LAMBDA i : PickRow(sp[i], nx(i)))) >>
 =============================================================================
